@@ -19,6 +19,7 @@ import Compress.Prefix.BitReader
 import Compress.Proofs.FlateReset
 import Compress.Proofs.BzWApiLatch
 import Compress.Proofs.MetaWApi
+import Compress.Proofs.WrapInit
 
 namespace Compress.Props.C14
 open Compress Compress.Window
@@ -91,5 +92,37 @@ theorem C14_bzip2_writer_reset_new (lvl : Int) (sk : XFlate.Sink) (s0 s : Bzip2.
 theorem C14_meta_writer_reset (s : Meta.MW) (sk : XFlate.Sink) (f : Meta.FinalMode) :
     (s.reset sk).setFinal f = (({} : Meta.MW).reset sk).setFinal f :=
   Compress.Proofs.MetaWApi.reset_fresh s sk f
+
+open Compress.Proofs.Wrap Compress.Prefix.Wrap in
+/-- **prefix.Reader.Init re-initialises the wrap.go wrapper.**  From ANY earlier state of the Reader
+    (`old`: any bit buffer and counters, a `bytesReader`/`stringReader` with any cache contents
+    left by any history, a `buffer`, or no earlier use) and for ANY source - the same object
+    re-targeted by its own Reset, another object at any position, of any of the three wrapped kinds -
+    the state after `Init` is exactly the state of a new Reader on that source: wrapper
+    `pos = 0`, empty cache, zeroed array.  Hence nothing cached for the earlier source can be
+    served: every later sequence of wrapper calls satisfies the contract relative to the NEW
+    contents (`C10_wrapper_contract`), and every ReadBits script returns what a new Reader returns. -/
+theorem C14_wrapper_reinit (old : Option WR) (src : Src) (big : Bool) (ns : List Nat) :
+    WR.init old src big = { bigEndian := big, w := Wrapper.fresh src } ∧
+    WR.init old src big = WR.init none src big ∧
+    wreadScript (WR.init old src big) ns = wreadScript (WR.init none src big) ns :=
+  ⟨(init_fresh old src big).1, (init_fresh old src big).2, reinit_script old src big ns⟩
+
+open Compress.Proofs.Wrap Compress.Prefix.Wrap in
+/-- ... spelled out for the caching wrappers: after `Init` on `rd`, every call sequence answers from
+    `rd` alone, for every earlier history. -/
+theorem C14_wrapper_reinit_serves_new (old : Option WR) (rd : Rd) (big : Bool) (ops : List Compress.Proofs.Wrap.Op) :
+    (WR.init old (.bytes rd) big).w = .bytes (CRd.fresh rd) ∧
+    (WR.init old (.strings rd) big).w = .strings (CRd.fresh rd) ∧
+    ContractOK rd (trace (CRd.fresh rd) ops) :=
+  reinit_contract old rd big ops
+
+-- non-vacuity: a used Reader (4 bytes of the old source cached, bits buffered), the same object
+-- re-targeted by Reset and passed to Init again: the first Peek serves the new contents
+example :
+    let r0 : Compress.Prefix.Wrap.WR :=
+      { w := .bytes Compress.Proofs.Wrap.usedW, bufBits := 5, numBits := 3, offset := 9 }
+    let r1 := Compress.Prefix.Wrap.WR.init (some r0) (.bytes (Compress.Proofs.Wrap.usedW.rd.reset [9, 8, 7])) false
+    Compress.Proofs.Wrap.usedW.buf = [1, 2, 3, 4] ∧ (r1.w.peek 2).2.1 = [9, 8] := by decide
 
 end Compress.Props.C14
